@@ -563,19 +563,22 @@ func sliceSafe(fn *ssa.Function, b *ssa.BasicBlock, x, low, high ssa.Value) stri
 		if ph, ok := v.(*ssa.Phi); ok && !seenPhi[ph] && !strings.HasPrefix(ph.Comment, "rangeindex") {
 			seenPhi[ph] = true
 			whys := []string{}
+			all := true
 			for _, e := range ph.Edges {
 				if e == ssa.Value(ph) {
 					continue
 				}
 				ok, w := chk(e, isHigh)
 				if !ok {
-					return false, ""
+					all = false
+					break
 				}
 				whys = append(whys, w)
 			}
-			if len(whys) > 0 {
+			if all && len(whys) > 0 {
 				return true, "join of: " + strings.Join(whys, " | ")
 			}
+			// otherwise the joined value itself may be tested against the length (a loop counter: `i+1 < len(x)`)
 		}
 		if k, ok := constInt(v); ok {
 			if k == 0 {
@@ -707,6 +710,19 @@ func leLen(b *ssa.BasicBlock, v, x ssa.Value) bool {
 		if isLenOf(bo.Y, x) && ((bo.Op == token.GTR && !outcome) || (bo.Op == token.LEQ && outcome)) {
 			d := linAdd(lv, linOf(bo.X, 0), -1)
 			if onlyZero(linWithout(d, "1")) && d["1"] <= 0 {
+				return true
+			}
+		}
+		// E < len(x) holds  =>  E + 1 <= len(x)
+		if isLenOf(bo.Y, x) && ((bo.Op == token.LSS && outcome) || (bo.Op == token.GEQ && !outcome)) {
+			d := linAdd(lv, linOf(bo.X, 0), -1)
+			if onlyZero(linWithout(d, "1")) && d["1"] <= 1 {
+				return true
+			}
+		}
+		if isLenOf(bo.X, x) && ((bo.Op == token.GTR && outcome) || (bo.Op == token.LEQ && !outcome)) {
+			d := linAdd(lv, linOf(bo.Y, 0), -1)
+			if onlyZero(linWithout(d, "1")) && d["1"] <= 1 {
 				return true
 			}
 		}
